@@ -1,3 +1,3 @@
-CONSTANTS Scope = "small" Mutant = "none"
+CONSTANTS Scope = "small" Mutant = "none" DepEnumOffered = FALSE
 SPECIFICATION Spec
 INVARIANT Emit
